@@ -167,6 +167,14 @@ static void run_gradient_scenario(const gscen_t *s)
     /* ---- the gradient and its pre-rendered copy */
     pixman_image_t *G = mk_gradient(g, &GS[s->stops]);
     if (!G) { gdescribe(s, desc, sizeof desc); vf_violation("c09-gradient-not-created", "%s: gradient constructor returned NULL", desc); return; }
+    if ((s->rq + s->stops + s->grad) & 1) {
+        /* every other gradient has a past: it was first used with another repeat mode (what the library derives from the stops at validation must be derived again) */
+        static const pixman_repeat_t other[4] = { PIXMAN_REPEAT_NORMAL, PIXMAN_REPEAT_NONE, PIXMAN_REPEAT_REFLECT, PIXMAN_REPEAT_PAD };
+        uint32_t one[2] = { 0, 0 }; pixman_image_t *scratch = pixman_image_create_bits(PIXMAN_a8r8g8b8, 2, 1, one, 8);
+        pixman_image_set_repeat(G, other[s->rep & 3]);
+        pixman_image_composite32(PIXMAN_OP_SRC, G, NULL, scratch, 0, 0, 0, 0, 0, 0, 2, 1);
+        pixman_image_unref(scratch);
+    }
     pixman_image_set_repeat(G, rep);
     int gx, gy;                                                  /* the request's origin in the gradient image's own coordinates */
     if (s->xf == 0) { gx = g->ox + rq->sx; gy = g->oy + rq->sy; }
